@@ -234,3 +234,55 @@ Proof.
   destruct tss as [|ts [|ts2 rest]]; try exact Hall.
   destruct (Nat.eqb (length ts) (length (c_tagkeys c))); [exact Hin|exact Hall].
 Qed.
+
+(* ------------------------------------------------------------------ alive shards: partitions offline at write / at read *)
+(* hash sharding consults online shards only: a shard whose partition is offline when the query runs is never consulted *)
+Lemma tloop_hash_sub : forall hash v c g, c_typ c = Hash -> wf_group c g ->
+  forall tss acc res, tloop hash v c g acc tss = Some res -> forall s, In s res -> In s (all_alive g).
+Proof.
+  intros hash v c g Ht Hwf. unfold wf_group in Hwf. rewrite Ht in Hwf.
+  induction tss as [|t tss IH]; intros acc res H s Hin.
+  - inversion H; subst. contradiction.
+  - cbn [tloop] in H. rewrite Ht in H.
+    destruct (snd (sel_keys (c_sk c) (sort_tags t))); [|discriminate].
+    match type of H with match ?X with _ => _ end = _ => destruct X as [res'|] eqn:El; [|discriminate] end.
+    inversion H; subst res; clear H. apply in_app_or in Hin as [Hin|Hin]; [|eapply IH; eauto].
+    match type of Hin with In s (match ?X with _ => _ end) => destruct X as [s0|] eqn:Es; [|contradiction] end.
+    destruct Hin as [<-|[]]. apply shard_for_spec in Es as [i [Hi Hn]].
+    unfold all_alive. apply in_flat_map. exists i. split; [apply Hwf; exact Hi|]. rewrite Hn. left; reflexivity.
+Qed.
+
+Theorem consulted_are_alive_proof : forall hash v c g cond s,
+  c_typ c = Hash -> wf_group c g -> In s (target_group hash v c g cond) -> In s (all_alive g).
+Proof.
+  intros hash v c g cond s Ht Hwf. unfold target_group.
+  destruct (c_sk c); [auto|]. destruct cond as [e|]; [|auto].
+  destruct (cond_tags v (c_tagkeys c) e) as [tss|]; [|auto].
+  destruct (tloop hash v c g (c_mst c) tss) as [res|] eqn:El; [|auto].
+  intros Hin. eapply tloop_hash_sub; eauto.
+Qed.
+
+(* routing looks at the alive list only through the index list hashed over (and not at all under range sharding) *)
+Lemma route_in_alive_ext : forall hash c g a b p,
+  (c_typ c = Range \/ eff_idx c (set_alive g a) = eff_idx c (set_alive g b)) ->
+  route_in hash c (set_alive g a) p = route_in hash c (set_alive g b) p.
+Proof.
+  intros hash c g a b p H. unfold route_in. destruct (wkey c p) as [ps|]; [|reflexivity].
+  destruct (c_typ c) eqn:Et.
+  - destruct H as [H|H]; [discriminate|]. unfold shard_for. rewrite H. reflexivity.
+  - reflexivity.
+Qed.
+
+(* if the index list hashed over is the same when the row is written and when the query runs, whatever else happened to the
+   partitions in between, pruning finds the row *)
+Theorem prune_sound_alive_change_proof : forall hash v c cond p g aw ar s,
+  v_or v = true -> v_reset v = true ->
+  (v_and v = true \/ match cond with Some e => parser_image e | None => True end) ->
+  wf_group c (set_alive g ar) -> wf_point p ->
+  (c_typ c = Range \/ eff_idx c (set_alive g aw) = eff_idx c (set_alive g ar)) ->
+  route_in hash c (set_alive g aw) p = Some s -> eval_cond c cond p = true ->
+  In s (target_group hash v c (set_alive g ar) cond).
+Proof.
+  intros hash v c cond p g aw ar s Hor Hres Hok Hwf Hwp Hsame Hr Hev.
+  rewrite (route_in_alive_ext hash c g aw ar p Hsame) in Hr. eapply target_group_sound; eauto.
+Qed.
